@@ -176,7 +176,7 @@ pub fn run(a: &Args) {
                 let g = [s.get_years() as i64, s.get_months() as i64, s.get_weeks() as i64, s.get_days() as i64, s.get_hours() as i64,
                          s.get_minutes(), s.get_seconds(), s.get_milliseconds(), s.get_microseconds(), s.get_nanoseconds()];
                 let i = (rng.next() % 10) as usize;
-                if g[i] != 0 { LIM[i].1 / g[i].abs() + rng.range(-1, 1) } else { rng.range(-5, 5) }
+                if g[i] != 0 { (LIM[i].1 / g[i].abs()).saturating_add(rng.range(-1, 1)) } else { rng.range(-5, 5) }
             }
         };
         let cls = if k.unsigned_abs() > 1 { "mul" } else { "plain" };
